@@ -176,6 +176,16 @@ class Gen:
                 t.append(cur)
                 cur += d0 * (r.choice([8, 25]) if (i + 1) in gaps else 1)
             gappy = True
+        alternating = False
+        if windowed and not gappy and n >= 5 and n % 2 == 1 and r.random() < 0.25:
+            # two step lengths in turn, an even number of steps: the median step falls between two whole seconds
+            # (the code truncates it: 1.5 s -> 1 s)
+            a, b = r.choice([(1, 2), (2, 3), (2, 1), (60, 61), (3, 6)])
+            t, cur = [], r.choice([0, 5])
+            for i in range(n):
+                t.append(cur)
+                cur += a if i % 2 == 0 else b
+            alternating = True
         p = {"st": r.choice(THR[1:]), "ft": r.choice(THR[1:]), "period": NA, "minobs": NA, "minperiod": NA,
              "kind": kind}
         if windowed:
@@ -190,6 +200,11 @@ class Gen:
                 p["minobs"] = NA
                 p["minperiod"] = r.choice([d, 2 * d, 3 * d])
                 p["period"] = r.choice([2 * d, 3 * d, 4 * d])
+            if alternating:
+                s2 = (t[1] - t[0]) + (t[2] - t[1])
+                p["minobs"] = NA
+                p["minperiod"] = r.choice([s2 // 2 * 2, s2 // 2 * 3, s2, s2 + 1, 2 * s2])
+                p["period"] = r.choice([s2, 2 * s2, 2 * s2 + 1, 3 * s2])
         x = self.series(n, lo=-3, hi=3)
         pres = [v for v in x if v != NA]
         if kind == "range" and len(pres) >= 2 and r.random() < 0.5:
